@@ -302,7 +302,9 @@ RAW_BODIES = [b'', b' ', b'<html><body>502 Bad Gateway</body></html>', b'{"resul
               b'{"result":+1,"error":null}', b'{"result":1e,"error":null}', b'{result:1}', b"{'result':1}",
               b'\xef\xbb\xbf{"result":1,"error":null}', b'{"result":1,"error":null} x', b'nul', b'Work queue depth exceeded',
               b'\xff\xfe', b'{"result":"\xc3"}', b'\xed\xa0\x80', b'\xc0\xaf', b'\xf4\x90\x80\x80', b'{"result":"\xe9"}',
-              b'{"a":1,}', b'[1,]', b'{"result":1 "error":null}', b'-', b'1 2', b'{"result":0x10}']
+              b'{"a":1,}', b'[1,]', b'{"result":1 "error":null}', b'-', b'1 2', b'{"result":0x10}',
+              # text that would be mistaken for a %-format if it ever reached one
+              b'Server load 100% - try later', b'my%20wallet not found', b'%s %d %(x)s %', b'100%', b'%%', b'{"result":%d}']
 
 
 def bad_reply(rng):
